@@ -37,6 +37,7 @@ type GenParams struct {
 	Lean                   bool     // no merger cycle without a new batch, no drain: an empty hand-over makes mossStore run a full (idle) compaction
 	PersistAfterBatchPct   int      // percentage of batches followed by a directed merge + persist
 	FirstWide              int      // the first batch gets this many extra generated keys (big-then-small histories)
+	FirstBurst             int      // with FirstWide: this many ordinary batches follow the first one before the first merger cycle and persister round
 	QuietPct               int      // percentage of programs whose monitors run only at explicit check points
 	SkewedWide             bool     // wide keys with skewed lengths (long keys sorting first), for key-index windows
 	Keys                   []string // explicit key pool (overrides DenseKeys/NKeys)
@@ -653,6 +654,19 @@ func GenProgram(r *Rng, prop string, cfg Config, gp GenParams) *Program {
 			g.gp.WideKeys = gp.FirstWide
 			add(Step{K: "batch", B: g.batch()})
 			g.gp.WideKeys = gp.WideKeys
+			if gp.FirstBurst > 0 && lower {
+				// small batches right behind the big one, all ingested by one
+				// merger cycle: the merge heuristic leaves the big lowest
+				// segment alone, and it goes to the persister as it is
+				for j := 0; j < gp.FirstBurst; j++ {
+					add(Step{K: "batch", B: g.batch()})
+				}
+				add(Step{K: "merge", A: "plain"})
+				add(Step{K: "persist"})
+				add(Step{K: "check"})
+				fresh = false
+				continue
+			}
 		} else {
 			g.lonely = false
 			b := g.batch()
